@@ -130,7 +130,9 @@ def tryfail_set(tier):
                 if mac == "try_spawn" and fl == "Opt" and tier == "quick":
                     continue
                 p = fp.build(mac, ds, init_ev=True, rich=(len(ds) <= 2), flavour=fl)
-                out.append(tprog("%s/%s/%s" % (mac, fl, fp.pname(ds)), p, ds, sub=fp.fail_slots(ds)))
+                # thread identity / liveness is judged on failing rows too: a failing branch must not let the caller
+                # continue while siblings of the step are still running
+                out.append(tprog("%s/%s/%s" % (mac, fl, fp.pname(ds)), p, ds, sub=fp.fail_slots(ds), check_threads=True, callers=("main", None) if len(ds) == 2 else ("main",)))
     return out
 
 
